@@ -1,0 +1,5 @@
+//go:build !verif
+
+package ucon
+
+func simTimerLoop(tm *TimerManager) bool { return false }
